@@ -136,6 +136,19 @@ Theorem C29_get_preroll : forall all start dur ps g0 off rest,
 Proof. exact get_preroll. Qed.
 Print Assumptions C29_get_preroll.
 
+(* 404 after the reader went through the played segments: no track has a sample of the window in the parts read
+   (mux_all = seekAndMux without its final flush) *)
+Theorem C29_get_notfound : forall all start dur segs m0,
+  find_segments g_start all (Some start) (Some (start + dur)) = Some segs ->
+  mux_all segs start dur = Ok m0 -> on_get all start dur = ErrNotFound ->
+  exists g0 rest, played all start dur = (g0, g_start g0 - start) :: rest /\
+    let tracks := s_tracks (g_seg g0) in
+    (NoDup (track_ids tracks) -> tracks_sorted dur tracks (played all start dur) ->
+     forall id ts c, In (id, ts, c) tracks ->
+       filter (in_win (go_to_mp4 dur ts)) (read_rows id ts dur tracks (played all start dur)) = []).
+Proof. exact get_notfound_after_reading. Qed.
+Print Assumptions C29_get_notfound.
+
 (* the played segments: the first one FindSegments returns, then files that continue their predecessor *)
 Theorem C29_get_played_consecutive : forall all start dur segs,
   find_segments g_start all (Some start) (Some (start + dur)) = Some segs ->
